@@ -1,7 +1,7 @@
 (* C19: a pickled compiled function computes the same values and hashes: its store is the pickled store (RAM caches
    empty, disk caches the same), which meets the invariant of C04, and C04 / get_hash are independent of what an
    invariant-respecting store holds. *)
-From Connectome Require Import Values Attrs VM Edges EdgesGen Store MemGen PickleGen Evaluator L2 HashSound SpecEq EqFacts C01Inst C04Main Pickle.
+From Connectome Require Import Values Attrs VM Edges EdgesGen Store MemGen MemPickleGen PickleGen Evaluator L2 HashSound SpecEq EqFacts C01Inst C04Main Pickle.
 Local Open Scope list_scope.
 
 Lemma s_find_pickle σ c : s_find (pickle_store σ) c = option_map pickle_cache (s_find σ c).
